@@ -18,6 +18,8 @@ def M_(name, recv, *args, **kw):
 
 
 def check(ctx):
+    from ..lib import discarded_results
+    ctx.sub(discarded_results, 'C17.S5', ('qstrader/statistics/',), 'statistics are computed from the series the code actually sorted and filtered')
     ctx.sub(drawdowns)
     ctx.sub(ratios)
     ctx.sub(reporters)
